@@ -82,21 +82,44 @@ def _normalise(r):
     return r
 
 
-def run(jobs, batch=400, timeout=1800):
+def _run_chunk(chunk, timeout):
+    p = subprocess.run([NODE, "--single-threaded", DRIVER], input=json.dumps({"jobs": chunk}).encode(), capture_output=True, timeout=timeout)
+    if p.returncode != 0:
+        raise OracleError("node failed (rc=%s): %s" % (p.returncode, p.stderr.decode(errors="replace")[-2000:]))
+    res = json.loads(p.stdout.decode())["results"]
+    if len(res) != len(chunk):
+        raise OracleError("node returned %d results for %d jobs" % (len(res), len(chunk)))
+    return [_normalise(r) for r in res]
+
+
+HANG = {"valid": True, "stage": "hang", "hang": True, "calls": []}
+
+
+def _run_marking(chunk, timeout, single_timeout):
+    """Run a chunk; on a timeout bisect down to the job(s) that do not finish alone within single_timeout seconds and give those the
+    result HANG (every job is microseconds of work for the engine, so a job that runs for single_timeout seconds does not terminate)."""
+    try:
+        return _run_chunk(chunk, timeout)
+    except subprocess.TimeoutExpired:
+        if len(chunk) == 1:
+            return [dict(HANG)]
+        h = len(chunk) // 2
+        t = max(single_timeout, timeout // 2)
+        return _run_marking(chunk[:h], t, single_timeout) + _run_marking(chunk[h:], t, single_timeout)
+
+
+def run(jobs, batch=400, timeout=1800, on_hang="error", single_timeout=30):
+    """on_hang="mark": a job that does not finish is reported with the result HANG instead of raising OracleError."""
     out = []
     for i in range(0, len(jobs), batch):
         chunk = jobs[i:i + batch]
+        if on_hang == "mark":
+            out.extend(_run_marking(chunk, timeout, single_timeout))
+            continue
         try:
-            p = subprocess.run([NODE, "--single-threaded", DRIVER], input=json.dumps({"jobs": chunk}).encode(),
-                               capture_output=True, timeout=timeout)
+            out.extend(_run_chunk(chunk, timeout))
         except subprocess.TimeoutExpired:
             raise OracleError("node did not finish a batch of %d jobs" % len(chunk))
-        if p.returncode != 0:
-            raise OracleError("node failed (rc=%s): %s" % (p.returncode, p.stderr.decode(errors="replace")[-2000:]))
-        res = json.loads(p.stdout.decode())["results"]
-        if len(res) != len(chunk):
-            raise OracleError("node returned %d results for %d jobs" % (len(res), len(chunk)))
-        out.extend(_normalise(r) for r in res)
     return out
 
 
